@@ -24,9 +24,15 @@ ASSUMPTIONS = [
 
 @st.composite
 def cases(draw, mode, nums=("frac",), tmax=2):
-    c = draw(gen.curves(0, 3, 3, nums=nums, rational=draw(st.integers(0, 4)) < 2,
-                         regimes="all" if mode == "elevate" else None))
-    t = draw(st.integers(1, tmax))
+    big = mode == "elevate" and draw(st.integers(0, 5)) == 0
+    if big:
+        # many levels at once (a closed form for t levels need not agree with t single steps): small curves
+        c = draw(gen.curves(0, 3, 1, nums=nums, rational=draw(st.integers(0, 4)) < 2, regimes=False))
+        t = draw(st.sampled_from([4, 5, 6, 7, 8, 9]))
+    else:
+        c = draw(gen.curves(0, 3, 3, nums=nums, rational=draw(st.integers(0, 4)) < 2,
+                             regimes="all" if mode == "elevate" else None))
+        t = draw(st.integers(1, tmax))
     return {"curve": c, "t": t, "mode": mode, "via": draw(st.sampled_from(["method", "setter"])),
             "twin_first": draw(st.integers(0, 2)) == 0,
             "tolerance": draw(st.sampled_from(["default", "none"])),
